@@ -11,3 +11,5 @@ import LyModel.Props.C16
 import LyModel.Props.C11
 import LyModel.Props.C11Range
 import LyModel.Props.C08
+import LyModel.Props.C05
+import LyModel.Props.C05JsonNum
